@@ -83,6 +83,17 @@ static SPECS: &[PropertySpec] = &[
         assumptions: &["URLs compared modulo fragment", "generator stays inside the subset where WHATWG URL and RFC 3986 agree", "when the redirect budget is exhausted on a redirect that also has an unusable Location either error is accepted"],
     },
     PropertySpec {
+        id: "C10",
+        scenario: props::c10::scenario,
+        level: "exploration",
+        rule: "redirect chains of 1..3 hops over followed statuses with Location forms that change host, port or neither, crossed with every request body kind of C07 (incl. file, multipart, custom write sequences) and with a forward-proxy world whose no-proxy list makes proxy applicability change between hops; every hop's bytes are parsed independently and pass the C07 oracle (equality of method/body while all preceding statuses are 307/308, framing consistency otherwise), dialled peer / Host / absolute-form authority belong to the hop's URL; distinct = (method, body kind, statuses, forms, proxy world); non-trivial = a body or a proxy",
+        quick_runs: 5000,
+        thorough_runs: 200_000,
+        real_components: REAL,
+        stubbed_components: STUB,
+        assumptions: &["Host value on the http-via-proxy leg is not demanded", "no-proxy entries are whole host names here (suffix semantics belong to C11)"],
+    },
+    PropertySpec {
         id: "C13",
         scenario: props::c13::scenario,
         level: "exploration",
